@@ -24,7 +24,8 @@ EXPLANATION = (
     "with the peak mask, each line is (object.frequency, row), mean / +-1 std / fn band / mean-curve peak "
     "are direct calls of the object's accessors with the caller's distribution argument and n=+-1; "
     "(R4) the period row of the summary table is 1/median, the same log-standard deviation and 1/(+-1 std "
-    "values) of the object's own fn statistics. Not decided: what matplotlib renders; restoration of the "
+    "values) of the object's own fn statistics; an option that selects windows, or a distribution, which a plotting "
+    "function hands to another function of the module under the same name carries the caller's own value. Not decided: what matplotlib renders; restoration of the "
     "masks when plotting raises.")
 
 RULES = {
